@@ -3,11 +3,18 @@
 independent statement of the report categories (from the property texts).
 
 A *case* is JSON-able:
-  {"files": [FILE...], "lic": [NAME...], "extra": [NONCOVERED...], "glob": "none"|"toml"|"dep5", "git": bool}
-FILE = {"p": relative path, "kind": "text"|"binary"|"fifo", "how": "header"|"dotlicense"|"global"|"header+global",
-        "style": comment style key, "exprs": [EXPR...], "cop": int}
+  {"files": [FILE...], "lic": [NAME...], "extra": [NONCOVERED...], "glob": "none"|"toml"|"dep5"|"tomltree", "git": bool,
+   "tomls": [TOML...] (glob = tomltree), "dep5x": [PARA...] (glob = dep5)}
+FILE = {"p": relative path, "kind": "text"|"binary"|"fifo", "how": "header"|"dotlicense"|"snippet"|"global"|"header+global"|"bare",
+        "style": comment style key, "exprs": [EXPR...], "cop": int, "choke": text of one more SPDX-License-Identifier tag on which the
+        expression parser fails with an internal error (optional)}
 EXPR = ["K", id] | ["AND", e, e] | ["OR", e, e] | ["WITH", id, id]
 NAME = path relative to LICENSES/ (may contain '/', may end in '.license')
+TOML = {"dir": directory ('' = root), "tables": [{"pats": [PAT...], "prec": "c"|"a"|"o", "cop": int, "exprs": [EXPR...]}...]}
+PARA = {"pats": [PAT...], "cop": int, "expr": EXPR, "raw": text of the License field when it is not an SPDX expression | None,
+        "pos": "before"|"after" the one-file paragraphs}
+PAT  = ["all"] | ["here"] | ["ext", ".py"] | ["below", dir] | ["lit", path]   (the generator's own small pattern language, whose
+       matches it knows; rendered as `**`, `*`, `*.py`, `dir/**`, path in REUSE.toml and as `*`, -, `*.py`, `dir/*`, path in dep5)
 """
 import json
 import os
@@ -117,6 +124,8 @@ def header_text(f):
         lines.append("%sSPDX-FileCopyrightText: %d Holder %d\n" % (pre, 2001 + i, i))
     for e in f["exprs"]:
         lines.append("%sSPDX-License-Identifier: %s\n" % (pre, expr_text(e)))
+    if f.get("choke"):
+        lines.append("%sSPDX-License-Identifier: %s\n" % (pre, f["choke"]))
     return a + "".join(lines) + z
 
 
@@ -137,11 +146,178 @@ def global_parts(f):
     return 0, []
 
 
+# ----------------------------------------------------------------------------
+# global licensing beyond "one table per file": REUSE.toml hierarchies and dep5 paragraphs with wildcards.
+# The generator speaks a small pattern language of its own (PAT, see the module docstring) so that it knows, without
+# consulting any glob implementation, which files a table or paragraph matches.
+
+
+def ancestors(p):
+    """the directories above p, outermost first: 'a/b/c.txt' -> ['', 'a', 'a/b']"""
+    parts = p.split("/")[:-1]
+    return ["/".join(parts[:k]) for k in range(len(parts) + 1)]
+
+
+def dep5_escape(p):
+    return p.replace("\\", "\\\\").replace("*", "\\*").replace("?", "\\?")
+
+
+def pat_text(pat, dep5=False):
+    k = pat[0]
+    if k == "all":
+        return "*" if dep5 else "**"
+    if k == "here":
+        assert not dep5
+        return "*"
+    if k == "ext":
+        return "*" + pat[1]
+    if k == "below":
+        return pat[1] + ("/*" if dep5 else "/**")
+    assert k == "lit"
+    return dep5_escape(pat[1]) if dep5 else glob_escape(pat[1])
+
+
+def pat_match(pat, r, dep5=False):
+    """does PAT match the path r (relative to the REUSE.toml's directory / to the project root for dep5)?
+    REUSE.toml: `*` stops at '/', `**` does not; dep5: `*` matches any characters, '/' included."""
+    k = pat[0]
+    if k == "all":
+        return True
+    if k == "here":
+        return "/" not in r
+    if k == "ext":
+        return r.endswith(pat[1]) and len(r) > len(pat[1]) and (dep5 or "/" not in r)
+    if k == "below":
+        return r.startswith(pat[1] + "/")
+    return r == pat[1]
+
+
+def toml_levels(case, p):
+    """per REUSE.toml on the way from the root to p's directory, outermost first: (index into case['tomls'], index of the
+    last table that matches p, or None when none of its tables does)"""
+    out = []
+    anc = ancestors(p)
+    for ti, t in sorted(enumerate(case.get("tomls", [])), key=lambda x: (len(x[1]["dir"].split("/")) if x[1]["dir"] else 0)):
+        if t["dir"] not in anc:
+            continue
+        r = p[len(t["dir"]) + 1:] if t["dir"] else p
+        hit = None
+        for k, tab in enumerate(t["tables"]):
+            if any(pat_match(pat, r) for pat in tab["pats"]):
+                hit = k
+        out.append((ti, hit))
+    return out
+
+
+def dep5_paras(case):
+    """the Files paragraphs of .reuse/dep5 in the order they are written: wildcard paragraphs placed before, one paragraph
+    per how=global file, wildcard paragraphs placed after (the last paragraph that matches a file applies)"""
+    xs = case.get("dep5x", [])
+    out = [x for x in xs if x.get("pos", "before") == "before"]
+    for f in case["files"]:
+        if f["kind"] != "fifo" and f["how"] == "global":
+            assert f["cop"] and len(f["exprs"]) == 1 and " " not in f["p"]
+            out.append({"pats": [["lit", f["p"]]], "cop": f["cop"], "expr": f["exprs"][0], "raw": None})
+    out += [x for x in xs if x.get("pos", "before") == "after"]
+    return out
+
+
+def dep5_para_of(case, p):
+    hit = None
+    for para in dep5_paras(case):
+        if any(pat_match(pat, p, dep5=True) for pat in para["pats"]):
+            hit = para
+    return hit
+
+
+def entries(case):
+    """the covered files of the tree: the generated ones plus the .gitignore of a Git repository (which carries a full header)"""
+    out = list(case["files"])
+    if case.get("git"):
+        out.append(dict(p=".gitignore", kind="text", how="header", style="py", exprs=[["K", case.get("gitignore_lic", "MIT")]], cop=1))
+    return out
+
+
+OWN_HOWS = ("header", "dotlicense", "snippet", "header+global")
+
+
+def attribution(case, f, alt=False):
+    """(could a report be produced?, has a copyright notice?, [EXPR...]) for the covered file f — what the REUSE
+    specification attributes to it given everything the generator wrote: the file's own header / .license sibling, the
+    REUSE.toml tables or dep5 paragraph that match it and their precedence.
+
+    A file whose own tags, or whose dep5 paragraph, hold a licence text that is no SPDX expression and on which the
+    expression parser gives up with an internal error cannot be given a licence: clause (d), it has to be named as
+    unreadable (never dropped).  alt=True is the other defensible reading for the *own* tags only: such a header is
+    treated like any header with an unparseable expression, i.e. nothing is taken from the file."""
+    if f["kind"] == "fifo":
+        return False, False, []
+    own = f["how"] in OWN_HOWS
+    cop, exprs = (f["cop"], list(f["exprs"])) if own else (0, [])
+    choke = own and bool(f.get("choke"))
+    if choke and alt:
+        cop, exprs, choke = 0, [], False
+    glob = case["glob"]
+    if glob == "tomltree":
+        import c04
+        truth = []
+        for ti, k in toml_levels(case, f["p"]):
+            if k is None:
+                truth.append(None)
+            else:
+                tab = case["tomls"][ti]["tables"][k]
+                truth.append((tab["prec"], ["t%d.%d.%d" % (ti, k, i) for i in range(tab["cop"])], [json.dumps(e) for e in tab["exprs"]]))
+        vis = []
+        for lv in truth:
+            if lv is not None:
+                vis.append(lv)
+                if lv[0] == "o":
+                    break
+        overridden = any(lv[0] == "o" for lv in vis)   # then the file itself is not consulted at all
+        if choke and not overridden:
+            return False, False, []
+        items = c04.spec_items(truth, (["own.%d" % i for i in range(cop)], [json.dumps(e) for e in exprs]))
+        return True, any(k == "C" for k, _, _ in items), [json.loads(v) for k, _, v in sorted(items) if k == "L"]
+    if choke:
+        return False, False, []
+    if glob == "dep5":
+        para = dep5_para_of(case, f["p"])
+        if para is not None:
+            if para.get("raw") is not None:
+                return False, False, []
+            cop, exprs = cop + para["cop"], exprs + [para["expr"]]
+        return True, cop > 0, exprs
+    gc, ge = global_parts(f)
+    return True, cop + gc > 0, exprs + list(ge)
+
+
+def has_choke(case):
+    return any(f.get("choke") for f in case["files"])
+
+
+def toml_file_text(t):
+    parts = ["version = 1\n"]
+    for tab in t["tables"]:
+        pats = [toml_str(pat_text(pat)) for pat in tab["pats"]]
+        item = ["[[annotations]]", "path = %s" % (pats[0] if len(pats) == 1 else "[%s]" % ", ".join(pats))]
+        if tab["prec"] != "c" or tab.get("explicit"):
+            item.append('precedence = "%s"' % {"c": "closest", "a": "aggregate", "o": "override"}[tab["prec"]])
+        if tab["cop"] == 1 and tab.get("explicit"):
+            item.append('SPDX-FileCopyrightText = "2011 Table Holder 0"')
+        elif tab["cop"]:
+            item.append("SPDX-FileCopyrightText = [%s]" % ", ".join(toml_str("%d Table Holder %d" % (2011 + i, i)) for i in range(tab["cop"])))
+        if len(tab["exprs"]) == 1 and not tab.get("explicit"):
+            item.append("SPDX-License-Identifier = %s" % toml_str(expr_text(tab["exprs"][0])))
+        elif tab["exprs"]:
+            item.append("SPDX-License-Identifier = [%s]" % ", ".join(toml_str(expr_text(e)) for e in tab["exprs"]))
+        parts.append("\n" + "\n".join(item) + "\n")
+    return "".join(parts)
+
+
 def build_tree(root, case):
     files = {}
     fifos = []
     toml_items = []
-    dep5_items = []
     for f in case["files"]:
         p = f["p"]
         if f["kind"] == "fifo":
@@ -179,14 +355,19 @@ def build_tree(root, case):
                 toml_items.append("\n".join(item) + "\n")
             else:
                 assert case["glob"] == "dep5" and gc and len(ge) == 1 and " " not in p
-                dep5_items.append("Files: %s\nCopyright: %s\nLicense: %s\n" % (
-                    p.replace("\\", "\\\\").replace("*", "\\*").replace("?", "\\?"),
-                    "\n           ".join("%d Global Holder %d" % (1990 + i, i) for i in range(gc)),
-                    expr_text(ge[0])))
         files[p] = body
     if case["glob"] == "toml":
         files["REUSE.toml"] = "version = 1\n\n" + "\n".join(toml_items)
+    elif case["glob"] == "tomltree":
+        for t in case["tomls"]:
+            files[(t["dir"] + "/" if t["dir"] else "") + "REUSE.toml"] = toml_file_text(t)
     elif case["glob"] == "dep5":
+        dep5_items = []
+        for para in dep5_paras(case):
+            dep5_items.append("Files: %s\nCopyright: %s\nLicense: %s\n" % (
+                " ".join(pat_text(pat, dep5=True) for pat in para["pats"]),
+                "\n           ".join("%d Global Holder %d" % (1990 + i, i) for i in range(para["cop"])),
+                para["raw"] if para.get("raw") is not None else expr_text(para["expr"])))
         files[".reuse/dep5"] = (
             "Format: https://www.debian.org/doc/packaging-manuals/copyright-format/1.0/\nUpstream-Name: demo\n"
             "Upstream-Contact: Jane <jane@example.com>\nSource: https://example.com/demo\n\n" + "\n".join(dep5_items))
@@ -227,24 +408,13 @@ def build_tree(root, case):
 # ground truth -> abstract project (what the model and the oracle are fed)
 
 
-def abstract(case):
+def abstract(case, alt=False):
     """[(path, readable, has_copyright, [keys of expr 1, keys of expr 2, ...])] for the covered files,
-    straight from the generator's records."""
+    straight from the generator's records (see `attribution`)."""
     out = []
-    for f in case["files"]:
-        if f["kind"] == "fifo":
-            out.append((f["p"], False, False, []))
-            continue
-        gc, ge = global_parts(f)
-        if f["how"] == "global":
-            cop, exprs = gc, ge
-        elif f["how"] == "header+global":
-            cop, exprs = f["cop"] + gc, list(f["exprs"]) + list(ge)
-        else:
-            cop, exprs = f["cop"], f["exprs"]
-        out.append((f["p"], True, cop > 0, [expr_keys(e) for e in exprs]))
-    if case.get("git"):
-        out.append((".gitignore", True, True, [[case.get("gitignore_lic", "MIT")]]))
+    for f in entries(case):
+        rd, cop, exprs = attribution(case, f, alt)
+        out.append((f["p"], rd, cop, [expr_keys(e) for e in exprs]))
     return out
 
 
@@ -287,9 +457,9 @@ def carried(name):
     return name, False, False
 
 
-def expected(case):
+def expected(case, alt=False):
     """The report the property texts demand for this tree."""
-    return expected_of(abstract(case), case["lic"])
+    return expected_of(abstract(case, alt), case["lic"])
 
 
 def expected_of(files, lic):
@@ -336,9 +506,9 @@ def expected_of(files, lic):
     return exp
 
 
-def clauses(case):
+def clauses(case, alt=False):
     """C01 (a)-(d) verbatim over the ground truth; returns the list of violated clause letters."""
-    return clauses_of(abstract(case), case["lic"])
+    return clauses_of(abstract(case, alt), case["lic"])
 
 
 def clauses_of(files, lic):
@@ -400,6 +570,8 @@ def canon_json(root, code, rep):
         "readerr": sorted(rel(root, p) for p in nc["read_errors"]),
         "used": sorted(rep["summary"]["used_licenses"]),
         "compliant": rep["summary"]["compliant"],
+        # the files for which a per-file report exists (not part of what the model is compared on, see ReportStream.agree)
+        "files": sorted(rel(root, f["path"]) for f in rep["files"]),
     }
     return out
 
@@ -576,15 +748,117 @@ def used_ids(case):
     return s
 
 
-def compliant_case(rng, nfiles=None):
+# more files in nested directories, for the REUSE.toml hierarchies
+TREE_NAMES = ["src/deep/k.py", "src/deep/er/w.txt", "src/lib/u.c", "doc/api/i.html", "src/deep/x y.sql"]
+
+
+def rand_pat(rng, below):
+    """a PAT for a REUSE.toml table, drawn from the shapes that match at least one of the relative paths `below` (mostly)"""
+    r = rng.choice(below)
+    kinds = ["all", "all", "lit", "lit", "ext", "here"] + (["below", "below"] if "/" in r else [])
+    k = rng.choice(kinds)
+    if k == "ext":
+        e = os.path.splitext(r)[1]
+        return ["ext", e] if e else ["here"]
+    if k == "below":
+        return ["below", r.split("/")[0]]
+    if k == "lit":
+        return ["lit", r]
+    return [k]
+
+
+def rand_table(rng, pool, below):
+    shape = rng.choice("CCCLLLBBBn")
+    return {"pats": [rand_pat(rng, below) for _ in range(rng.choice([1, 1, 1, 2]))], "prec": rng.choice("cccccaaoo"[:rng.choice([5, 9])]),
+            "cop": rng.randint(1, 2) if shape in "CB" else 0,
+            "exprs": [rand_expr(rng, pool) for _ in range(rng.randint(1, 2))] if shape in "LB" else [],
+            "explicit": rng.random() < 0.3}
+
+
+def gen_tomls(rng, paths, pool):
+    """a REUSE.toml in the root (p = 0.75) and in every directory above a file (p = 0.5), each with 1-3 tables"""
+    dirs = sorted({d for p in paths for d in ancestors(p)})
+    chosen = [d for d in dirs if rng.random() < (0.75 if d == "" else 0.5)]
+    if not chosen:
+        chosen = [rng.choice(dirs)]
+    tomls = []
+    for d in chosen:
+        below = [p[len(d) + 1:] if d else p for p in paths if not d or p.startswith(d + "/")]
+        tomls.append({"dir": d, "tables": [rand_table(rng, pool, below) for _ in range(rng.choice([1, 1, 2, 3]))]})
+    return tomls
+
+
+def set_own(rng, f, shape, pool):
+    """own information of shape bare / C (notices only) / L (expressions only) / B (both), in a header, a .license sibling or a snippet"""
+    text = f["kind"] == "text"
+    f.pop("snip", None)
+    if shape == "bare":
+        f.update(how="bare", cop=0, exprs=[])
+        return
+    f["how"] = rng.choice(["header", "header", "dotlicense"]) if text else "dotlicense"
+    f["style"] = style_for(f["p"])
+    f["cop"] = rng.randint(1, 2) if shape in "CB" else 0
+    f["exprs"] = [rand_expr(rng, pool) for _ in range(rng.randint(1, 2))] if shape in "LB" else []
+    if f["how"] == "header" and rng.random() < 0.1:
+        f["how"], f["style"] = "snippet", "py"
+        f["snip"] = [rng.randint(1, 2), rng.choice([0, rng.randint(1, 16), rng.randint(17, 200)])]
+
+
+def complete(case, f):
+    rd, cop, exprs = attribution(case, f)
+    return rd and cop and bool(exprs)
+
+
+def settle_tomltree(rng, case, pool):
+    """give every covered file of a REUSE.toml hierarchy own information of a random shape among those that make it
+    compliant given what the hierarchy attributes to it (so files with half a header, or none, that are completed by one
+    or two REUSE.toml files are as frequent as files with a full header); a file below an `override` table that lacks
+    something gets the table completed."""
+    for f in entries(case):
+        generated = f["p"] != ".gitignore"
+        shapes = ["bare", "C", "L", "B", "B"]
+        rng.shuffle(shapes)
+        done = False
+        for shape in (shapes if generated else []):
+            set_own(rng, f, shape, pool)
+            if complete(case, f):
+                done = True
+                break
+        if not done and not complete(case, f):
+            # only an override table can stand in the way of a full header: complete that table
+            for ti, k in toml_levels(case, f["p"]):
+                if k is not None and case["tomls"][ti]["tables"][k]["prec"] == "o":
+                    tab = case["tomls"][ti]["tables"][k]
+                    tab["cop"] = tab["cop"] or 1
+                    tab["exprs"] = tab["exprs"] or [rand_expr(rng, pool)]
+                    break
+            assert complete(case, f), (case, f)
+
+
+def rand_dep5x(rng, case, pool, raw=None):
+    """a dep5 paragraph with a wildcard (or naming one file), before or after the one-file paragraphs"""
+    paths = [f["p"] for f in case["files"] if f["kind"] != "fifo"]
+    p = rng.choice(paths)
+    kinds = ["all", "ext"] + (["below", "below"] if "/" in p else []) + (["lit", "lit"] if " " not in p else [])
+    k = rng.choice(kinds)
+    if k == "ext" and not os.path.splitext(p)[1]:
+        k = "all"
+    pat = {"all": ["all"], "ext": ["ext", os.path.splitext(p)[1]], "below": ["below", p.split("/")[0]], "lit": ["lit", p]}[k]
+    return {"pats": [pat], "cop": rng.randint(1, 2), "expr": rand_expr(rng, pool), "raw": raw, "pos": rng.choice(["before", "before", "after"])}
+
+
+def compliant_case(rng, nfiles=None, glob=None):
     """compliant by construction: every file has a notice and expressions over valid, current identifiers, each
     provided as ID.<ext> (some in sub-directories, some with a .license companion), nothing else in LICENSES/."""
     cl = id_classes()
     pool = rng.sample(cl["current"], 4) + rng.sample(cl["licref"], 2) + ["MIT", "0BSD"]
-    glob = rng.choice(["none", "none", "toml", "dep5"])
+    glob = glob or rng.choice(["none", "none", "toml", "dep5", "tomltree", "tomltree"])
     n = nfiles or rng.randint(1, 6)
+    names = NAMES
+    if glob == "tomltree":
+        names, n = NAMES + TREE_NAMES + TREE_NAMES, max(n, rng.randint(2, 7))
     files = []
-    for p in rng.sample(NAMES, n):
+    for p in sorted(set(rng.sample(names, n)), key=names.index):
         kind = "binary" if p.endswith(".png") else "text"
         hows = ["dotlicense"] if kind == "binary" else ["header", "header", "dotlicense"]
         if glob == "toml":
@@ -606,6 +880,11 @@ def compliant_case(rng, nfiles=None):
     case = {"files": files, "lic": [], "glob": glob, "extra": [], "git": rng.random() < 0.2}
     if case["git"]:
         case["gitignore_lic"] = rng.choice(pool)
+    if glob == "tomltree":
+        case["tomls"] = gen_tomls(rng, [f["p"] for f in entries(case)], pool)
+        settle_tomltree(rng, case, pool)
+    if glob == "dep5" and rng.random() < 0.5:
+        case["dep5x"] = [rand_dep5x(rng, case, pool) for _ in range(rng.randint(1, 2))]
     for x in sorted(used_ids(case)):
         b = base(x)
         name = b + rng.choice([".txt", ".txt", ".md", ".text"])
@@ -626,7 +905,15 @@ def compliant_case(rng, nfiles=None):
 
 
 DEFECTS = ["missing", "unused", "bad-used", "bad-provided", "deprecated", "noext", "nocop", "nolic", "readerr", "noboth",
-           "wrongcase", "licref-missing", "licref-noext", "plus-only-provided", "emptycop"]
+           "wrongcase", "licref-missing", "licref-noext", "plus-only-provided", "emptycop",
+           "dep5-broken", "choke-tag", "toml-strip", "toml-prec", "toml-shadow"]
+
+# License fields of a dep5 paragraph that are not SPDX licence expressions (unbalanced parentheses, dangling or doubled
+# operators, informal lists): the licence of every file the paragraph applies to cannot be determined
+BROKEN_LICENSE = ["MIT/X11", "MIT, Apache-2.0", "MIT and/or Apache-2.0", "(MIT", "MIT AND", "MIT OR OR ISC", ")", "MIT WITH",
+                  "MIT (ISC)", "()", "( AND MIT", "( OR 0BSD"]
+# tag values on which the expression parser does not answer "not an expression" but fails with an internal error
+CHOKES = ["()", "( )", "( AND MIT", "( OR ISC", "(()"]
 
 
 def inject(rng, case, kind):
@@ -635,6 +922,8 @@ def inject(rng, case, kind):
     f = rng.choice(files)
 
     def add_expr(target, e):
+        if target["how"] == "bare":
+            target["how"] = "header" if target["kind"] == "text" else "dotlicense"
         if target["how"] == "global" and case["glob"] == "dep5":
             target["exprs"] = [["AND", target["exprs"][0], e]]
         elif target["how"] == "header+global":
@@ -703,6 +992,36 @@ def inject(rng, case, kind):
     elif kind == "noboth":
         f["cop"], f["exprs"] = 0, []
         f["how"], f["style"] = ("header", style_for(f["p"])) if f["kind"] == "text" else ("dotlicense", "txt")
+    elif kind == "dep5-broken":
+        # a paragraph whose License field is no licence expression: no report can be produced for the files it applies to
+        if case["glob"] == "none":
+            case["glob"] = "dep5"
+        if case["glob"] == "dep5":
+            case.setdefault("dep5x", []).append(rand_dep5x(rng, case, ["MIT"], raw=rng.choice(BROKEN_LICENSE)))
+    elif kind == "choke-tag":
+        own = [g for g in files if g["how"] in OWN_HOWS]
+        if own:
+            rng.choice(own)["choke"] = rng.choice(CHOKES)
+    elif kind in ("toml-strip", "toml-prec", "toml-shadow"):
+        if case["glob"] == "tomltree":
+            t = rng.choice(case["tomls"])
+            tab = rng.choice(t["tables"])
+            if kind == "toml-strip":
+                what = rng.choice(["cop", "exprs", "both"])
+                if what in ("cop", "both"):
+                    tab["cop"] = 0
+                if what in ("exprs", "both"):
+                    tab["exprs"] = []
+            elif kind == "toml-prec":
+                tab["prec"] = rng.choice([x for x in "cao" if x != tab["prec"]])
+            else:
+                # one more table at the end of the file: it applies instead of the earlier ones to whatever it matches
+                d = t["dir"]
+                below = [g["p"][len(d) + 1:] if d else g["p"] for g in files if not d or g["p"].startswith(d + "/")]
+                if below:
+                    shape = rng.choice("nnCL")
+                    t["tables"].append({"pats": [rand_pat(rng, below)], "prec": rng.choice("cccao"), "cop": 1 if shape == "C" else 0,
+                                        "exprs": [K("MIT")] if shape == "L" else []})
     elif kind == "readerr":
         p = rng.choice(["pipe", "src/fifo.py", "data/named pipe"])
         if not any(g["p"] == p for g in case["files"]):
@@ -711,7 +1030,12 @@ def inject(rng, case, kind):
 
 
 def defect_case(rng, kinds):
-    case = compliant_case(rng)
+    glob = None
+    if any(k.startswith("toml-") for k in kinds):
+        glob = "tomltree"
+    elif "dep5-broken" in kinds and rng.random() < 0.6:
+        glob = "dep5"
+    case = compliant_case(rng, glob=glob)
     for k in kinds:
         case = inject(rng, case, k)
     # drop licences that lost their last user only when the defect was not about them: keep as is (an unused
@@ -742,7 +1066,7 @@ def tree_cases(tier, rng):
     for i in range(n):
         yield defect_case(rng, [])
     for k in DEFECTS:
-        for i in range({"quick": 8, "thorough": 60}[tier]):
+        for i in range({"quick": 6, "thorough": 60}[tier]):
             yield defect_case(rng, [k])
     for i in range({"quick": 150, "thorough": 1500}[tier]):
         yield defect_case(rng, [rng.choice(DEFECTS) for _ in range(rng.randint(2, 5))])
@@ -798,6 +1122,13 @@ class ReportStream:
 
     def model_out(self, case, outs):
         return model_report_out(outs[0])
+
+    def agree(self, case, impl_out, model_out):
+        if impl_out.startswith("EXC"):
+            return impl_out == model_out
+        d = json.loads(impl_out)
+        d.pop("files", None)
+        return json.dumps(d, sort_keys=True) == model_out
 
     def show(self, case):
         return {k: v for k, v in case.items()}
